@@ -8,6 +8,7 @@ require (
 	github.com/artela-network/aspect-runtime v0.4.8-rc8
 	github.com/ethereum/go-ethereum v1.12.0
 	github.com/holiman/uint256 v1.2.2
+	google.golang.org/protobuf v1.30.0
 )
 
 require (
@@ -49,7 +50,6 @@ require (
 	golang.org/x/exp v0.0.0-20230206171751-46f607a40771 // indirect
 	golang.org/x/sys v0.8.0 // indirect
 	golang.org/x/text v0.9.0 // indirect
-	google.golang.org/protobuf v1.30.0 // indirect
 )
 
 replace github.com/artela-network/artela-evm => /repo
